@@ -349,3 +349,95 @@ Proof.
   intros Hp H0 n.
   exact (gint_shift (gw p n) _ P (gauss_moments p _ Hp H0 n)).
 Qed.
+
+(* ------------------------------------------------------------------ *)
+(* list polynomials over R: evaluation commutes with the list operations of Moment1D.v, and
+   [gderiv] of Bridge.v IS the derivative of polynomial x Gaussian *)
+Lemma peval_padd f g x : peval (padd RKd f g) x = peval f x + peval g x.
+Proof. revert g; induction f as [|a f IH]; intro g; cbn [padd peval]; [ring|].
+  destruct g as [|b g]; cbn [padd peval fadd RKd]; [ring|]. rewrite IH. ring. Qed.
+Lemma peval_pscale c f x : peval (pscale RKd c f) x = c * peval f x.
+Proof. induction f as [|a f IH]; [cbn [pscale map peval]; ring|].
+  change (pscale RKd c (a :: f)) with ((c * a) :: pscale RKd c f). cbn [peval]. rewrite IH. ring. Qed.
+Lemma peval_pshift f x : peval (pshift RKd f) x = x * peval f x.
+Proof. cbn [pshift peval f0 RKd]. ring. Qed.
+Lemma peval_pderiv_aux_S k f x :
+  peval (pderiv_aux RKd (S k) f) x = peval f x + peval (pderiv_aux RKd k f) x.
+Proof. revert k; induction f as [|a f IH]; intro k; cbn [pderiv_aux peval]; [ring|].
+  rewrite (IH (S k)). cbn [ofnat fadd fmul f1 RKd]. ring. Qed.
+Lemma peval_pderiv_aux_0 f x : peval (pderiv_aux RKd 0 f) x = x * peval (pderiv RKd f) x.
+Proof. destruct f as [|a f]; cbn [pderiv_aux pderiv peval ofnat fmul f0 RKd]; ring. Qed.
+Lemma peval_pderiv_cons c f x :
+  peval (pderiv RKd (c :: f)) x = peval f x + x * peval (pderiv RKd f) x.
+Proof. cbn [pderiv]. now rewrite peval_pderiv_aux_S, peval_pderiv_aux_0. Qed.
+
+Lemma peval_derive f x : is_derive (peval f) x (peval (pderiv RKd f) x).
+Proof.
+  revert x. induction f as [|c f IH]; intro x.
+  - cbn [pderiv peval]. apply (is_derive_const (0 : R)).
+  - rewrite peval_pderiv_cons.
+    replace (peval f x + x * peval (pderiv RKd f) x)
+      with (0 + (1 * peval f x + x * peval (pderiv RKd f) x)) by ring.
+    apply (is_derive_plus (fun _ : R => c) (fun t => t * peval f t) x 0).
+    + apply (is_derive_const c).
+    + apply (is_derive_mult (fun t : R => t) (peval f) x 1 (peval (pderiv RKd f) x)).
+      * apply (is_derive_id x).
+      * apply IH.
+      * exact Rmult_comm.
+Qed.
+
+Lemma peval_gderiv p f x :
+  peval (gderiv RKd p f) x = peval (pderiv RKd f) x - 2 * p * x * peval f x.
+Proof. unfold gderiv. rewrite peval_padd, peval_pscale, peval_pshift.
+  cbn [fopp fmul fadd f1 RKd]. ring. Qed.
+
+(* d/dx [ f(x) e^{-p x^2} ] = (gderiv f)(x) e^{-p x^2}, f a coefficient list *)
+Theorem poly_gauss_derive p f x :
+  is_derive (fun t => peval f t * exp (- p * t ^ 2)) x
+            (peval (gderiv RKd p f) x * exp (- p * x ^ 2)).
+Proof.
+  rewrite peval_gderiv.
+  replace ((peval (pderiv RKd f) x - 2 * p * x * peval f x) * exp (- p * x ^ 2))
+    with (peval (pderiv RKd f) x * exp (- p * x ^ 2)
+          + peval f x * (- (2 * p * x) * exp (- p * x ^ 2))) by ring.
+  apply (is_derive_mult (peval f) (fun t => exp (- p * t ^ 2)) x).
+  - apply peval_derive.
+  - apply gauss_derive.
+  - exact Rmult_comm.
+Qed.
+
+(* the improper integral of the derivative of ANY polynomial x Gaussian is 0 (no hypothesis on
+   the Gaussian integral): sum of the monomial case *)
+Fixpoint dsum (p : R) (n : nat) (f : list R) (x : R) : R :=
+  match f with [] => 0 | c :: f' => c * dgw p n x + dsum p (S n) f' x end.
+
+Lemma gint_dsum p : 0 < p -> forall f n, gint (dsum p n f) 0.
+Proof.
+  intro Hp. induction f as [|c f IH]; intro n.
+  - exact gint_zero.
+  - apply (gint_ext (fun x => c * dgw p n x + dsum p (S n) f x) _ (c * 0 + 0));
+      [intro x; reflexivity | ring |].
+    apply (gint_plus (fun x => c * dgw p n x) (dsum p (S n) f)).
+    + exact (gint_scal c (dgw p n) 0 (gauss_integral_kills_derivatives p n Hp)).
+    + apply IH.
+Qed.
+
+Lemma dsum_eq p f : forall n x,
+  dsum p n f x =
+  (x ^ n * peval (gderiv RKd p f) x
+   + match n with O => 0 | S n' => INR n * x ^ n' end * peval f x) * exp (- p * x ^ 2).
+Proof.
+  induction f as [|c f IH]; intros n x.
+  - rewrite peval_gderiv. cbn [dsum pderiv peval]. ring.
+  - cbn [dsum]. rewrite (IH (S n) x), !peval_gderiv, peval_pderiv_cons. cbn [peval]. unfold dgw.
+    destruct n as [|n'].
+    + cbn [pow INR]. ring.
+    + rewrite (S_INR (S n')). cbn [pow]. ring.
+Qed.
+
+Theorem gauss_integral_kills_all_derivatives p f : 0 < p ->
+  gint (fun x => peval (gderiv RKd p f) x * exp (- p * x ^ 2)) 0.
+Proof.
+  intro Hp. apply (gint_ext (dsum p 0 f) _ 0 0); [|reflexivity|now apply gint_dsum].
+  intro x. rewrite dsum_eq. cbn [pow]. ring.
+Qed.
